@@ -9,7 +9,8 @@ import (
 // capability represents a known-safe attribute access after a `has` guard.
 type capability struct {
 	varName types.String // variable or expression identity
-	attr    types.String // attribute name
+	attr    types.String // attribute name, or tag key
+	tag     bool         // the capability is for a tag (hasTag), not for an attribute (has)
 }
 
 // capabilitySet tracks which attributes are safe to access.
